@@ -803,6 +803,25 @@ class ExprMixin:
             return Seq(it.keys.n, it.keys.at)
         if isinstance(it, sv.SPy) and it.what == "seq":
             return it.payload
+        if isinstance(it, sv.SSet):
+            # iteration over a set: some enumeration without repetition that covers the set
+            tag = sv.uid("setit")
+            ks = getattr(it, "ksort", None)
+            if ks is None:
+                ks = sv.IntS
+            elem = z3.Function(tag + ".at", sv.IntS, ks)
+            idx = z3.Function(tag + ".idx", ks, sv.IntS)
+            n = z3.Int(tag + ".len")
+            i, k = z3.Int(tag + ".i"), z3.Const(tag + ".k", ks)
+            path.assume(n >= 0)
+            path.assume(z3.ForAll([i], sv.Implies(sv.And(0 <= i, i < n), sv.And(it.dom(elem(i)), idx(elem(i)) == i)), patterns=[elem(i)]))
+            path.assume(z3.ForAll([k], sv.Implies(it.dom(k), sv.And(0 <= idx(k), idx(k) < n, elem(idx(k)) == k)), patterns=[it.dom(k)]))
+            if it.card is not None:
+                path.assume(n == it.card)
+            wrap = it.kwrap or (lambda e: sv.SRef(e, None))
+            sq = Seq(n, lambda j, elem=elem, wrap=wrap: wrap(elem(j)))
+            sq.set_src = (it, elem, idx)
+            return sq
         if isinstance(it, sv.SUnion):
             raise Unsupported("iteration over a value that may be None", node)
         r = self.lib_sequence(it, path, node)
